@@ -300,6 +300,45 @@ class BufInterp(Interp):
     def ev_Lambda(self, n, st):
         return [(('unknown', 'lambda'), st)]
 
+    def ev_ListComp(self, n, st):
+        """[<elt> for _ in range(E)]: the element expression is evaluated E times; if each evaluation moves the
+        cursor by a constant d, the cursor moves by d*E (E affine) and raises of one evaluation can occur"""
+        if len(n.generators) != 1 or n.generators[0].ifs:
+            raise AnalysisError('comprehension shape in Buffer.%s' % self.fd.name)
+        g = n.generators[0]
+        outs = []
+        for it, s0 in self.ev(g.iter, st):
+            if isinstance(it, Raised):
+                outs.append((it, s0))
+                continue
+            count = it[1] if it[0] == 'rangeof' else None
+            per = self.ev(n.elt, s0)
+            deltas = set()
+            for v, s1 in per:
+                if isinstance(v, Raised):
+                    # may raise at any iteration: the cursor has moved by an unknown multiple of d by then
+                    s2 = s1.copy()
+                    s2.cur = TOP if s1.cur is TOP or s0.cur is TOP else s0.cur + Aff.sym('k@%d' % n.lineno)
+                    outs.append((v, s2))
+                elif s1.cur is TOP or s0.cur is TOP:
+                    deltas.add(None)
+                else:
+                    d = s1.cur - s0.cur
+                    deltas.add(d.c if d.is_const() else None)
+            for d in deltas:
+                s3 = s0.copy()
+                if d is None or count is None:
+                    s3.cur = TOP
+                    outs.append((('unknown', 'list'), s3))
+                else:
+                    s3.cur = s0.cur + count.scale(d)
+                    first = [v for v, _ in per if not isinstance(v, Raised)]
+                    if d == 1 and first and first[0][0] == 'elem' and first[0][1] == s0.cur:
+                        outs.append((('qslice', s0.cur, s3.cur), s3))
+                    else:
+                        outs.append((('unknown', 'list'), s3))
+        return outs
+
     def ev_Subscript(self, n, st):
         outs = []
         sl = n.slice
@@ -373,6 +412,16 @@ class BufInterp(Interp):
                 else:
                     outs.append((('const', True), s1))
                     outs.append((('const', False), s1))
+            return outs
+        if isinstance(f, ast.Name) and f.id == 'range' and len(n.args) == 1:
+            outs = []
+            for v, s1 in self.ev(n.args[0], st):
+                if isinstance(v, Raised):
+                    outs.append((v, s1))
+                elif v[0] == 'aff':
+                    outs.append((('rangeof', v[1]), s1))
+                else:
+                    outs.append((('rangeof', None), s1))
             return outs
         if isinstance(f, ast.Name) and f.id in ('len', 'bool', 'hasattr', 'iter', 'str', 'repr'):
             outs = []
